@@ -92,8 +92,10 @@ CLAIMED["C09"]["text"] += ' Also: cold-start restarts (informers listing one aft
 CLAIMED["C10"]["text"] += ' Includes a parallel Job with one bound Pod stuck terminating past the force-delete timeout while its sibling runs.'
 CLAIMED["C12"]["text"] += ' Includes kills of Jobs already finished by an admission error while recorded tasks of other indexes live (foreign Pod on the name of attempt 0 or of the first retry), and a parallel Job with a stuck Pod that is force-deleted.'
 CLAIMED["C15"]["text"] += ' Includes a cold-start restart (JobConfig and Job informers listing in either order).'
+CLAIMED["C01"]["text"] += ' One population has multi-expression schedules in which one expression has no time left (past year, impossible date, running out during the run, all exhausted).'
 CLAIMED["C01"]["text"] += ' A further unit lets time pass while Work() runs (the clock advances at every reading, 50 ms / 300 ms / 1.1 s): Work() must return, nothing is requested early or twice.'
 CLAIMED["C04"]["text"] += ' The product also has a standby variant: controller objects constructed an hour before they are initialised and run.'
+CLAIMED["C14"]["text"] += ' Matrix keys are also varied over every accepted character class (dash, underscore, digits, twins, prefixes), every subset of up to three of eight keys.'
 CLAIMED["C14"]["text"] += ' Two more units: every ordered pair of 8 parallelism specs as an update of an admitted Job (started or not) must be refused; every combination of the three forms absent / present-but-empty / given must, if admitted, expand to the indexes of the one form that is given.'
 CLAIMED["C16"]["text"] += " One JobConfig is stored undefaulted; after every admission the JobConfigs in the webhook's informer cache must be byte-identical to what the informer stored."
 CLAIMED["C17"]["text"] += " JobConfig shapes include job templates carrying furiko's own label/annotation keys and a finalizer."
